@@ -11,7 +11,7 @@ class C15(SCheck):
     prop = "C15"
     level = "fault_enumeration"
     default_seed = 15015
-    N = {"quick": 210, "thorough": 6000}
+    N = {"quick": 420, "thorough": 6000}
     K = {"quick": 2, "thorough": 4}
     technique = "deterministic simulation with the clone ioctl answered by the simulated kernel (each unsupported errno, hard error, emulated success); oracle on the per-file call pattern in the supervisor trace"
     rule = ("case = tree of regular files (empty, small, multi-block, sparse) x reflink mode {never, auto, always} x driver x answer of "
